@@ -1,18 +1,947 @@
+// C09: no exported function panics or corrupts memory on untrusted input.
+//
+// Fault enumeration under AddressSanitizer (bin/check builds this package with -asan):
+//   - a driver table lists every exported function and method of the three packages and is
+//     compared with go/parser's view of the current tree (anything without a driver is recorded
+//     as `undriven`);
+//   - every parameter has a finite domain by role; each function is called on the full cross
+//     product of its domains (<= 20000 calls) or on all tuples with <= 2 parameters off a valid
+//     baseline; stateful objects are driven after short setup histories;
+//   - the DKG objects are explored breadth first (single instance, hostile call sequences,
+//     de-duplicated real states);
+//   - oracle: no Go panic, no process death, no ASan report, termination, error results satisfy
+//     a documented predicate, inputs that are invalid by documented length/range are not
+//     reported as success.
+//
+// Crash isolation: the binary re-executes itself as worker processes. A worker announces each
+// case on its stdout before executing it; when a worker dies the parent attributes the death to
+// the announced case, re-runs that case alone to confirm and minimise it, and restarts the
+// worker after it.
 package main
 
 import (
+	"bufio"
+	"bytes"
+	"encoding/json"
 	"fmt"
+	"io"
+	"os"
+	"os/exec"
+	"runtime"
+	"sort"
+	"strconv"
+	"strings"
+	"sync"
+	"time"
 
-	crypto "github.com/onflow/crypto"
+	"verif/harness/ev"
 )
 
+const (
+	nWorkers      = 16
+	caseWatchdog  = 300 * time.Second // non-termination guard only
+	chunkCost     = 400               // cost units per chunk handed to a worker
+	maxCrashSpawn = 12                // isolation re-runs per crashing case (confirm + minimise)
+)
+
+// ---------------------------------------------------------------------------------------
+// universe shared by parent and workers (deterministic in VERIF_SEED and the tier)
+
+type universe struct {
+	x     *fx
+	fns   []*fn
+	dkg   []*dkgUnit
+	bound int
+}
+
+func buildUniverse(seed int64, thorough bool) (*universe, error) {
+	u := &universe{x: newFx(seed), bound: 2}
+	if thorough {
+		u.bound = 3
+	}
+	u.fns = buildTable(u.x)
+	for _, f := range u.fns {
+		f.build(u.bound)
+	}
+	var err error
+	u.dkg, err = dkgUnits(thorough, seed)
+	return u, err
+}
+
+// ---------------------------------------------------------------------------------------
+// worker
+
+type vmsg struct {
+	Kind   string `json:"kind"`
+	Key    string `json:"key"`
+	What   string `json:"what"`
+	Replay any    `json:"replay"`
+}
+
+func hexArgs(f *fn, idx []int) map[string]any {
+	m := map[string]any{}
+	for i, p := range f.Params {
+		v := p.Vals[idx[i]]
+		var shown any
+		switch t := v.V.(type) {
+		case []byte:
+			if len(t) > 300 {
+				shown = fmt.Sprintf("%s...(%d bytes)", ev.Hex(t[:64]), len(t))
+			} else if t == nil {
+				shown = "nil"
+			} else {
+				shown = ev.Hex(t)
+			}
+		case [][]byte:
+			if t == nil {
+				shown = "nil"
+			} else {
+				var l []string
+				for _, b := range t {
+					if b == nil {
+						l = append(l, "nil")
+					} else if len(b) > 300 {
+						l = append(l, fmt.Sprintf("%s...(%d bytes)", ev.Hex(b[:48]), len(b)))
+					} else {
+						l = append(l, ev.Hex(b))
+					}
+				}
+				if len(l) > 6 {
+					l = append(l[:6], fmt.Sprintf("... %d elements", len(t)))
+				}
+				shown = l
+			}
+		case int, uint64, string, []int:
+			shown = t
+		case interface{ Encode() []byte }:
+			shown = ev.Hex(t.Encode())
+		default:
+			shown = v.C
+		}
+		m[p.Name] = map[string]any{"class": v.C, "value": shown}
+	}
+	return m
+}
+
+func workerMain(args []string) {
+	thorough := len(args) > 0 && args[0] == "thorough"
+	seed, _ := strconv.ParseInt(os.Getenv("VERIF_SEED"), 10, 64)
+	out := bufio.NewWriterSize(os.Stdout, 1<<16)
+	say := func(format string, a ...any) { fmt.Fprintf(out, format+"\n", a...) }
+	u, err := buildUniverse(seed, thorough)
+	if err != nil {
+		say("H %v", err)
+		out.Flush()
+		os.Exit(2)
+	}
+	say("READY")
+	out.Flush()
+	reported := map[string]bool{}
+	runFn := func(ui, k int, minimise bool) {
+		f := u.fns[ui]
+		idx := f.tuples[k]
+		say("B %d %s", k, f.caseID(idx))
+		out.Flush()
+		outcome, fd := f.exec(idx)
+		if fd != nil {
+			if fd.Kind == "baseline" {
+				say("H %s: %s", f.caseID(idx), fd.What)
+			} else {
+				min := idx
+				if minimise {
+					min = f.minimise(idx, fd, func(id string) { say("B %d %s", k, id); out.Flush() })
+				}
+				key := fd.Kind + ":" + f.Name + ":" + f.classKey(min)
+				if !reported[key] {
+					reported[key] = true
+					b, _ := json.Marshal(vmsg{Kind: fd.Kind, Key: key, What: fd.What, Replay: map[string]any{
+						"function": f.Name, "case": f.caseID(min), "first_seen_as": f.caseID(idx), "args": hexArgs(f, min)}})
+					say("V %s", b)
+				} else {
+					say("D %s", key)
+				}
+			}
+		}
+		say("E %s", outcome)
+	}
+	in := bufio.NewScanner(os.Stdin)
+	in.Buffer(make([]byte, 1<<20), 1<<20)
+	for in.Scan() {
+		fs := strings.Fields(in.Text())
+		if len(fs) == 0 {
+			continue
+		}
+		switch fs[0] {
+		case "Q":
+			out.Flush()
+			return
+		case "R": // R <fn> <from> <to>
+			ui, _ := strconv.Atoi(fs[1])
+			from, _ := strconv.Atoi(fs[2])
+			to, _ := strconv.Atoi(fs[3])
+			for k := from; k < to; k++ {
+				runFn(ui, k, true)
+			}
+			say("F")
+			out.Flush()
+		case "K": // K <dkgunit> <deadline-unix> <skipfile>
+			ui, _ := strconv.Atoi(fs[1])
+			dl, _ := strconv.ParseInt(fs[2], 10, 64)
+			skip := map[string]bool{}
+			if len(fs) > 3 {
+				if b, err := os.ReadFile(fs[3]); err == nil {
+					for _, l := range strings.Split(string(b), "\n") {
+						if l != "" {
+							skip[l] = true
+						}
+					}
+				}
+			}
+			d := u.dkg[ui]
+			st, err := d.explore(skip, time.Unix(dl, 0),
+				func(id string) { say("B 0 %s", id); out.Flush() },
+				func(f dkgFinding) {
+					b, _ := json.Marshal(vmsg{Kind: f.Kind, Key: f.Key, What: f.What, Replay: map[string]any{
+						"unit": d.Name, "n": d.N, "t": d.T, "me": d.Me, "dealer": d.Dealer, "calls": f.Calls, "args_hex": f.Hex, "path": f.Path}})
+					say("V %s", b)
+				})
+			if err != nil {
+				say("H %v", err)
+			} else {
+				b, _ := json.Marshal(st)
+				say("S %s", b)
+			}
+			say("F")
+			out.Flush()
+		}
+	}
+}
+
+// oneMain executes a single case in isolation (crash confirmation / minimisation).
+//
+//	--one <tier> fn <fnIndex> <i0,i1,...>     |    --one <tier> dkg <unit> <path>
+func oneMain(args []string) {
+	thorough := args[0] == "thorough"
+	seed, _ := strconv.ParseInt(os.Getenv("VERIF_SEED"), 10, 64)
+	u, err := buildUniverse(seed, thorough)
+	if err != nil {
+		fmt.Println("H", err)
+		os.Exit(2)
+	}
+	ui, _ := strconv.Atoi(args[2])
+	switch args[1] {
+	case "fn":
+		f := u.fns[ui]
+		var idx []int
+		for _, s := range strings.Split(args[3], ",") {
+			if s != "" {
+				v, _ := strconv.Atoi(s)
+				idx = append(idx, v)
+			}
+		}
+		fmt.Println("B", f.caseID(idx))
+		outcome, fd := f.exec(idx)
+		fmt.Println("RESULT", outcome, fd)
+	case "dkg":
+		p, _ := parsePath(args[3])
+		d := u.dkg[ui]
+		fmt.Println("B", strings.Join(d.labels(p), " ; "))
+		pan, last, err := d.replayPath(p)
+		fmt.Println("RESULT", pan, last, err)
+	}
+}
+
+// ---------------------------------------------------------------------------------------
+// parent
+
+type item struct {
+	dkg      bool
+	unit     int
+	from, to int
+}
+
+type worker struct {
+	slot    int
+	cmd     *exec.Cmd
+	stdin   io.WriteCloser
+	lines   *bufio.Scanner
+	stderr  *capBuf
+	errDone chan struct{}
+
+	mu       sync.Mutex
+	busy     bool
+	lastLine time.Time
+	hung     bool
+}
+
+type capBuf struct {
+	mu  sync.Mutex
+	buf bytes.Buffer
+}
+
+func (c *capBuf) Write(p []byte) (int, error) {
+	c.mu.Lock()
+	if c.buf.Len() < 24<<10 {
+		c.buf.Write(p)
+	}
+	c.mu.Unlock()
+	return len(p), nil
+}
+func (c *capBuf) String() string { c.mu.Lock(); defer c.mu.Unlock(); return c.buf.String() }
+
+type parent struct {
+	run  *ev.Run
+	u    *universe
+	tier string
+
+	mu        sync.Mutex
+	queue     []item
+	calls     map[string]int64 // per function
+	outcomes  map[string]int64
+	vioHits   map[string]int
+	vioFirst  map[string]bool
+	crashes   int
+	restarts  int
+	dkgSkip   map[int][]string
+	dkgStats  map[string]*dkgStats
+	harnessEr []string
+	samples   int
+}
+
+func (p *parent) spawn(slot int) (*worker, error) {
+	cmd := exec.Command(os.Args[0], "--worker", p.tier)
+	cmd.Env = append(os.Environ(), "ASAN_OPTIONS=detect_leaks=0:abort_on_error=0:allocator_may_return_null=1", "GOTRACEBACK=single")
+	stdin, err := cmd.StdinPipe()
+	if err != nil {
+		return nil, err
+	}
+	stdout, err := cmd.StdoutPipe()
+	if err != nil {
+		return nil, err
+	}
+	w := &worker{slot: slot, cmd: cmd, stdin: stdin, stderr: &capBuf{}, errDone: make(chan struct{})}
+	cmd.Stderr = w.stderr
+	if err := cmd.Start(); err != nil {
+		return nil, err
+	}
+	w.lines = bufio.NewScanner(stdout)
+	w.lines.Buffer(make([]byte, 1<<22), 1<<22)
+	w.touch()
+	// wait for READY (fixtures built)
+	for w.lines.Scan() {
+		l := w.lines.Text()
+		if l == "READY" {
+			return w, nil
+		}
+		if strings.HasPrefix(l, "H ") {
+			return nil, fmt.Errorf("worker start-up: %s", l[2:])
+		}
+	}
+	_ = cmd.Wait()
+	return nil, fmt.Errorf("worker died during start-up (building valid fixtures): %s", tail(w.stderr.String(), 2000))
+}
+
+func (w *worker) touch() { w.mu.Lock(); w.lastLine = time.Now(); w.mu.Unlock() }
+
+func tail(s string, n int) string {
+	if len(s) <= n {
+		return s
+	}
+	return s[:n/2] + "\n...\n" + s[len(s)-n/2:]
+}
+
+func (p *parent) take() (item, bool) {
+	p.mu.Lock()
+	defer p.mu.Unlock()
+	if len(p.queue) == 0 {
+		return item{}, false
+	}
+	it := p.queue[0]
+	p.queue = p.queue[1:]
+	return it, true
+}
+
+func (p *parent) pushFront(it item) {
+	p.mu.Lock()
+	p.queue = append([]item{it}, p.queue...)
+	p.mu.Unlock()
+}
+
+func fnOfID(id string) string {
+	if i := strings.IndexByte(id, ':'); i >= 0 && !strings.HasPrefix(id, "dkg:") {
+		return id[:i]
+	}
+	if strings.HasPrefix(id, "dkg:") {
+		if i := strings.IndexByte(id, '/'); i >= 0 {
+			return id[:i]
+		}
+	}
+	return id
+}
+
+func (p *parent) violation(v vmsg) {
+	p.mu.Lock()
+	p.vioHits[v.Key]++
+	first := !p.vioFirst[v.Key]
+	p.vioFirst[v.Key] = true
+	p.mu.Unlock()
+	if first {
+		p.run.Violation(v.Key, v.What, v.Replay)
+	}
+}
+
+// isolate re-runs one case alone; it reports whether the process died and its stderr.
+func (p *parent) isolate(args ...string) (died bool, stderr string) {
+	cmd := exec.Command(os.Args[0], append([]string{"--one", p.tier}, args...)...)
+	cmd.Env = append(os.Environ(), "ASAN_OPTIONS=detect_leaks=0:abort_on_error=0", "GOTRACEBACK=single")
+	var eb capBuf
+	cmd.Stderr = &eb
+	cmd.Stdout = io.Discard
+	done := make(chan error, 1)
+	if err := cmd.Start(); err != nil {
+		return false, err.Error()
+	}
+	go func() { done <- cmd.Wait() }()
+	select {
+	case err := <-done:
+		return err != nil, eb.String()
+	case <-time.After(caseWatchdog):
+		_ = cmd.Process.Kill()
+		<-done
+		return true, "killed by the 300 s non-termination guard\n" + eb.String()
+	}
+}
+
+func idxString(idx []int) string {
+	s := make([]string, len(idx))
+	for i, v := range idx {
+		s[i] = strconv.Itoa(v)
+	}
+	return strings.Join(s, ",")
+}
+
+func asanSummary(stderr string) string {
+	for _, l := range strings.Split(stderr, "\n") {
+		if strings.HasPrefix(l, "SUMMARY:") || strings.Contains(l, "ERROR: AddressSanitizer") {
+			return strings.TrimSpace(l)
+		}
+	}
+	for _, l := range strings.Split(stderr, "\n") {
+		if strings.HasPrefix(l, "fatal error:") || strings.HasPrefix(l, "SIG") || strings.Contains(l, "signal") {
+			return strings.TrimSpace(l)
+		}
+	}
+	return "process died"
+}
+
+// crashFn handles the death of a worker during table case (unit, k).
+func (p *parent) crashFn(ui, k int, announced, stderr string, hung bool) {
+	f := p.u.fns[ui]
+	idx := f.tuples[k]
+	kind := "crash"
+	if hung {
+		kind = "hang"
+	}
+	spawns := 0
+	confirmed, cstderr := false, ""
+	if !hung {
+		confirmed, cstderr = p.isolate("fn", strconv.Itoa(ui), idxString(idx))
+		spawns++
+	}
+	min := append([]int{}, idx...)
+	if confirmed {
+		for changed := true; changed && spawns < maxCrashSpawn; {
+			changed = false
+			for i, pr := range f.Params {
+				if min[i] == pr.Base || spawns >= maxCrashSpawn {
+					continue
+				}
+				try := append([]int{}, min...)
+				try[i] = pr.Base
+				d, se := p.isolate("fn", strconv.Itoa(ui), idxString(try))
+				spawns++
+				if d && asanSummary(se) == asanSummary(cstderr) {
+					min, changed = try, true
+				}
+			}
+		}
+		stderr = cstderr
+	}
+	key := kind + ":" + f.Name + ":" + f.classKey(min)
+	what := fmt.Sprintf("worker process died while executing this case (%s); reproduced in isolation: %v", asanSummary(stderr), confirmed)
+	if hung {
+		what = "case did not terminate within the 300 s guard"
+	}
+	p.violation(vmsg{Kind: kind, Key: key, What: what, Replay: map[string]any{
+		"function": f.Name, "case": f.caseID(min), "first_seen_as": f.caseID(idx), "announced": announced,
+		"args": hexArgs(f, min), "reproduced_in_isolation": confirmed, "stderr": tail(stderr, 6000)}})
+}
+
+func (p *parent) crashDKG(ui int, id, stderr string, hung bool) {
+	d := p.u.dkg[ui]
+	ps := id[strings.IndexByte(id, '/')+1:]
+	path, _ := parsePath(ps)
+	kind := "crash"
+	if hung {
+		kind = "hang"
+	}
+	confirmed, cstderr := false, ""
+	spawns := 0
+	if !hung {
+		confirmed, cstderr = p.isolate("dkg", strconv.Itoa(ui), ps)
+		spawns++
+	}
+	min := append([]int{}, path...)
+	if confirmed {
+		for changed := true; changed && spawns < maxCrashSpawn; {
+			changed = false
+			for i := 0; i < len(min)-1 && spawns < maxCrashSpawn; i++ {
+				try := append(append([]int{}, min[:i]...), min[i+1:]...)
+				dd, se := p.isolate("dkg", strconv.Itoa(ui), pathString(try))
+				spawns++
+				if dd && asanSummary(se) == asanSummary(cstderr) {
+					min, changed = try, true
+					break
+				}
+			}
+		}
+		stderr = cstderr
+	}
+	lab := d.labels(min)
+	key := fmt.Sprintf("%s:%s.%s", kind, strings.TrimPrefix(d.Name, "dkg:"), lab[len(lab)-1])
+	if len(lab) > 1 {
+		key += ":after:" + strings.Join(lab[:len(lab)-1], ";")
+	}
+	var hx []string
+	for _, a := range min {
+		hx = append(hx, d.Actions[a].Hex)
+	}
+	what := fmt.Sprintf("worker process died during this DKG call sequence (%s); reproduced in isolation: %v", asanSummary(stderr), confirmed)
+	if hung {
+		what = "DKG call did not terminate within the 300 s guard"
+	}
+	p.violation(vmsg{Kind: kind, Key: strings.ReplaceAll(key, " ", ""), What: what, Replay: map[string]any{
+		"unit": d.Name, "n": d.N, "t": d.T, "me": d.Me, "dealer": d.Dealer, "calls": lab, "args_hex": hx, "path": min,
+		"first_seen_path": path, "reproduced_in_isolation": confirmed, "stderr": tail(stderr, 6000)}})
+}
+
+// serve runs one worker slot until the queue is empty.
+func (p *parent) serve(slot int, deadline time.Time, wg *sync.WaitGroup, ws []*worker, wsMu *sync.Mutex) {
+	defer wg.Done()
+	var w *worker
+	defer func() {
+		if w != nil {
+			fmt.Fprintln(w.stdin, "Q")
+			_ = w.stdin.Close()
+			_ = w.cmd.Wait()
+		}
+		wsMu.Lock()
+		ws[slot] = nil
+		wsMu.Unlock()
+	}()
+	for {
+		it, ok := p.take()
+		if !ok {
+			return
+		}
+		if time.Now().After(deadline) {
+			p.run.MarkCapped()
+			continue
+		}
+		if w == nil {
+			var err error
+			w, err = p.spawn(slot)
+			if err != nil {
+				p.mu.Lock()
+				p.harnessEr = append(p.harnessEr, err.Error())
+				p.mu.Unlock()
+				return
+			}
+			wsMu.Lock()
+			ws[slot] = w
+			wsMu.Unlock()
+		}
+		skipFile := ""
+		if it.dkg {
+			p.mu.Lock()
+			sk := p.dkgSkip[it.unit]
+			p.mu.Unlock()
+			if len(sk) > 0 {
+				skipFile = fmt.Sprintf("%s/c09-skip-%d-%d", os.TempDir(), os.Getpid(), it.unit)
+				_ = os.WriteFile(skipFile, []byte(strings.Join(sk, "\n")+"\n"), 0o600)
+			}
+			fmt.Fprintf(w.stdin, "K %d %d %s\n", it.unit, deadline.Unix(), skipFile)
+		} else {
+			fmt.Fprintf(w.stdin, "R %d %d %d\n", it.unit, it.from, it.to)
+		}
+		w.mu.Lock()
+		w.busy = true
+		w.lastLine = time.Now()
+		w.mu.Unlock()
+		curK, curID := -1, ""
+		baseK := -1
+		finished := false
+		var localCalls int64
+		fname := ""
+		if !it.dkg {
+			fname = p.u.fns[it.unit].Name
+		} else {
+			fname = p.u.dkg[it.unit].Name
+		}
+		localOut := map[string]int64{}
+		for w.lines.Scan() {
+			l := w.lines.Text()
+			w.touch()
+			if len(l) < 1 {
+				continue
+			}
+			switch l[0] {
+			case 'B':
+				sp := strings.IndexByte(l[2:], ' ')
+				curK, _ = strconv.Atoi(l[2 : 2+sp])
+				curID = l[3+sp:]
+				if !it.dkg && curK != baseK {
+					baseK = curK
+					f := p.u.fns[it.unit]
+					if !f.isBase(f.tuples[curK]) {
+						p.run.Distinct(curID)
+					}
+				}
+			case 'E':
+				localCalls++
+				localOut[l[2:]]++
+				if !it.dkg {
+					p.mu.Lock()
+					if p.samples < 8 && curK > 0 && curK%7 == 3 {
+						p.samples++
+						f := p.u.fns[it.unit]
+						p.mu.Unlock()
+						p.run.Sample(map[string]any{"case": curID, "outcome": l[2:], "args": hexArgs(f, f.tuples[curK])})
+					} else {
+						p.mu.Unlock()
+					}
+				}
+				curID = ""
+			case 'V':
+				var v vmsg
+				if err := json.Unmarshal([]byte(l[2:]), &v); err == nil {
+					p.violation(v)
+				}
+			case 'D':
+				p.mu.Lock()
+				p.vioHits[l[2:]]++
+				p.mu.Unlock()
+			case 'H':
+				p.mu.Lock()
+				p.harnessEr = append(p.harnessEr, l[2:])
+				p.mu.Unlock()
+			case 'S':
+				var st dkgStats
+				if err := json.Unmarshal([]byte(l[2:]), &st); err == nil {
+					p.mu.Lock()
+					p.dkgStats[fname] = &st
+					p.mu.Unlock()
+				}
+			case 'F':
+				finished = true
+			}
+			if finished {
+				break
+			}
+		}
+		w.mu.Lock()
+		w.busy = false
+		hung := w.hung
+		w.mu.Unlock()
+		p.mu.Lock()
+		if !it.dkg {
+			p.calls[fname] += localCalls
+			for k, v := range localOut {
+				p.outcomes[k] += v
+			}
+		}
+		p.mu.Unlock()
+		if skipFile != "" {
+			_ = os.Remove(skipFile)
+		}
+		if finished {
+			continue
+		}
+		// the worker died (or was killed by the watchdog) before finishing the item
+		_ = w.cmd.Wait()
+		stderr := w.stderr.String()
+		w = nil
+		p.mu.Lock()
+		p.crashes++
+		p.restarts++
+		tooMany := p.restarts > 400
+		p.mu.Unlock()
+		if curID == "" {
+			p.mu.Lock()
+			p.harnessEr = append(p.harnessEr, fmt.Sprintf("worker died outside any announced case (item %+v): %s", it, tail(stderr, 1500)))
+			p.mu.Unlock()
+			return
+		}
+		if tooMany {
+			p.mu.Lock()
+			p.harnessEr = append(p.harnessEr, "more than 400 worker deaths: giving up")
+			p.mu.Unlock()
+			return
+		}
+		if it.dkg {
+			p.crashDKG(it.unit, curID, stderr, hung)
+			p.mu.Lock()
+			p.dkgSkip[it.unit] = append(p.dkgSkip[it.unit], curID)
+			p.mu.Unlock()
+			p.pushFront(it)
+		} else {
+			p.crashFn(it.unit, curK, curID, stderr, hung)
+			if curK+1 < it.to {
+				p.pushFront(item{unit: it.unit, from: curK + 1, to: it.to})
+			}
+		}
+	}
+}
+
+func parentMain() {
+	run := ev.Start("C09", "fault_enumeration")
+	if run.Replay != "" {
+		fmt.Println("C09: replay files name the function, the input classes and the argument bytes; re-run the check to reproduce")
+		os.Exit(0)
+	}
+	run.Budget(150*time.Second, 9*time.Minute)
+	tier := "quick"
+	if run.Thorough() {
+		tier = "thorough"
+	}
+	repo := os.Getenv("VERIF_REPO_DIR")
+	if repo == "" {
+		repo = "/repo"
+	}
+	exp, skippedFiles, err := listExported(repo)
+	if err != nil {
+		run.Fatal("cannot parse %s: %v", repo, err)
+	}
+	u, err := buildUniverse(run.Seed, run.Thorough())
+	if err != nil {
+		run.Fatal("cannot build the case universe: %v", err)
+	}
+	p := &parent{run: run, u: u, tier: tier, calls: map[string]int64{}, outcomes: map[string]int64{}, vioHits: map[string]int{},
+		vioFirst: map[string]bool{}, dkgSkip: map[int][]string{}, dkgStats: map[string]*dkgStats{}}
+
+	// driver table vs. the current tree
+	covered := map[string]string{}
+	for _, f := range u.fns {
+		for _, c := range f.Covers {
+			if c != "" {
+				covered[c] = f.Name
+			}
+		}
+	}
+	dkgCov := map[string][]string{
+		"FeldmanVSS":     {"crypto.(*feldmanVSSstate).Start", "crypto.(*feldmanVSSstate).End", "crypto.(*feldmanVSSstate).HandleBroadcastMsg", "crypto.(*feldmanVSSstate).HandlePrivateMsg", "crypto.(*feldmanVSSstate).ForceDisqualify", "crypto.(*dkgCommon).Running", "crypto.(*dkgCommon).Size", "crypto.(*dkgCommon).Threshold", "crypto.(*dkgCommon).NextTimeout"},
+		"FeldmanVSSQual": {"crypto.(*feldmanVSSQualState).NextTimeout", "crypto.(*feldmanVSSQualState).End", "crypto.(*feldmanVSSQualState).HandleBroadcastMsg", "crypto.(*feldmanVSSQualState).HandlePrivateMsg", "crypto.(*feldmanVSSQualState).ForceDisqualify"},
+		"JointFeldman":   {"crypto.(*JointFeldmanState).Start", "crypto.(*JointFeldmanState).NextTimeout", "crypto.(*JointFeldmanState).End", "crypto.(*JointFeldmanState).HandleBroadcastMsg", "crypto.(*JointFeldmanState).HandlePrivateMsg", "crypto.(*JointFeldmanState).Running", "crypto.(*JointFeldmanState).ForceDisqualify"},
+	}
+	for _, d := range u.dkg {
+		for _, c := range dkgCov[d.Proto.String()] {
+			covered[c] = "state-space " + d.Proto.String()
+		}
+	}
+	var undriven, excluded, driven []string
+	seenExp := map[string]bool{}
+	for _, e := range exp {
+		seenExp[e.Name] = true
+		switch {
+		case e.TestOnly:
+			excluded = append(excluded, fmt.Sprintf("%s (%s:%d, test helper taking *testing.T)", e.Name, e.File, e.Line))
+		case covered[e.Name] != "":
+			driven = append(driven, e.Name)
+		default:
+			undriven = append(undriven, fmt.Sprintf("%s (%s:%d)", e.Name, e.File, e.Line))
+		}
+	}
+	var stale []string
+	for c := range covered {
+		if !seenExp[c] {
+			stale = append(stale, c)
+		}
+	}
+	sort.Strings(stale)
+	run.Set("exported_functions_in_tree", len(exp))
+	run.Set("driven", len(driven))
+	run.Set("undriven", undriven)
+	run.Set("excluded", excluded)
+	run.Set("drivers_without_function_in_tree", stale)
+	run.Set("files_skipped_by_build_constraints", skippedFiles)
+
+	// work queue: the DKG explorations first (longest), then the table in chunks
+	var total int64
+	for i := range u.dkg {
+		p.queue = append(p.queue, item{dkg: true, unit: i})
+	}
+	modes := map[string]string{}
+	planned := map[string]int{}
+	order := make([]int, len(u.fns))
+	for i := range order {
+		order[i] = i
+	}
+	sort.SliceStable(order, func(a, b int) bool {
+		ca, cb := u.fns[order[a]].Cost, u.fns[order[b]].Cost
+		return ca > cb
+	})
+	for _, i := range order {
+		f := u.fns[i]
+		modes[f.Name] = f.mode
+		planned[f.Name] = len(f.tuples)
+		total += int64(len(f.tuples))
+		c := f.Cost
+		if c < 1 {
+			c = 1
+		}
+		step := chunkCost / c
+		if step < 10 {
+			step = 10
+		}
+		for a := 0; a < len(f.tuples); a += step {
+			b := a + step
+			if b > len(f.tuples) {
+				b = len(f.tuples)
+			}
+			p.queue = append(p.queue, item{unit: i, from: a, to: b})
+		}
+	}
+	fmt.Printf("C09 %s: %d table functions, %d planned table cases, %d DKG units (depth %d, %d actions each), %d exported functions in tree (%d undriven)\n",
+		tier, len(u.fns), total, len(u.dkg), u.dkg[0].Depth, len(u.dkg[0].Actions), len(exp), len(undriven))
+
+	deadline := time.Now().Add(150 * time.Second)
+	if run.Thorough() {
+		deadline = time.Now().Add(9 * time.Minute)
+	}
+	ws := make([]*worker, nWorkers)
+	var wsMu sync.Mutex
+	stopWatch := make(chan struct{})
+	go func() { // non-termination guard
+		t := time.NewTicker(5 * time.Second)
+		defer t.Stop()
+		for {
+			select {
+			case <-stopWatch:
+				return
+			case <-t.C:
+				wsMu.Lock()
+				for _, w := range ws {
+					if w == nil {
+						continue
+					}
+					w.mu.Lock()
+					if w.busy && time.Since(w.lastLine) > caseWatchdog {
+						w.hung = true
+						_ = w.cmd.Process.Kill()
+					}
+					w.mu.Unlock()
+				}
+				wsMu.Unlock()
+			}
+		}
+	}()
+	var wg sync.WaitGroup
+	n := nWorkers
+	if c := runtime.NumCPU(); c < n {
+		n = c
+	}
+	for s := 0; s < n; s++ {
+		wg.Add(1)
+		go p.serve(s, deadline, &wg, ws, &wsMu)
+	}
+	wg.Wait()
+	close(stopWatch)
+	if len(p.harnessEr) > 0 {
+		run.Fatal("%s", strings.Join(p.harnessEr, " | "))
+	}
+
+	// evidence
+	var evals int64
+	perFn := map[string]int64{}
+	for k, v := range p.calls {
+		perFn[k] = v
+		evals += v
+	}
+	var states, trans int64
+	dkgSummary := map[string]any{}
+	for name, st := range p.dkgStats {
+		states += st.States
+		trans += st.Transitions
+		evals += st.Transitions
+		for fnn, c := range st.PerFn {
+			perFn[name+"."+fnn] = c
+		}
+		for k, v := range st.Outcomes {
+			p.outcomes["dkg:"+k] += v
+		}
+		for _, dkey := range st.Distinct {
+			run.Distinct(name + "|" + dkey)
+		}
+		if st.Capped {
+			run.MarkCapped()
+		}
+		dkgSummary[name] = map[string]any{"states": st.States, "transitions": st.Transitions, "transitions_per_depth": st.PerDepth, "capped": st.Capped}
+	}
+	if len(p.dkgStats) != len(u.dkg) {
+		run.MarkCapped()
+	}
+	run.Add("evaluations", evals)
+	run.Add("states", states)
+	run.Add("transitions", trans)
+	run.Set("per_function_calls", perFn)
+	run.Set("per_function_enumeration", modes)
+	run.Set("per_function_planned_cases", planned)
+	run.Set("dkg_state_space", dkgSummary)
+	run.Set("outcome_histogram", p.outcomes)
+	run.Set("distinct_outcomes", len(p.outcomes))
+	run.Set("worker_deaths", p.crashes)
+	run.Set("violation_key_hits", p.vioHits)
+	run.Set("workers", n)
+	run.Set("dkg_alphabet", map[string]any{"n": 3, "t": 1, "depth": u.dkg[0].Depth, "actions_per_state": len(u.dkg[0].Actions),
+		"action_classes": actionClasses(u.dkg[2])})
+	run.Set("rule", "driver table over every exported function/method of crypto, hash and random (checked against go/parser's list of the current tree); per parameter a finite domain by role "+
+		"(byte slices: nil, empty, 1 byte, valid-1, valid, valid+1, 4 KiB, all-0xff of valid length, plus role-specific values; ints: -2^63, -1, 0, 1, boundaries +-1, 255, 256, 2^31 (linear-memory sizes capped at 2^16); "+
+		"enums: -1, 0, each valid, max+1, 2^31; lists: nil, empty, [nil element], mismatched lengths, wrong key type, valid); each function called on the full cross product when <= 20000 tuples, else on every tuple with <= "+
+		strconv.Itoa(u.bound)+" parameters off the valid baseline; stateful objects (threshold inspector/participant, hashers, PRG) additionally after each setup history; DKG: BFS over all call sequences of one real instance up to the depth bound with state de-duplication, "+
+		"3 protocols x 2 roles. A case is distinct/non-trivial = a (function, input-class tuple) that is not the all-valid baseline; for DKG a (call, outcome) pair. Oracle: no recovered Go panic, no worker death/ASan report, termination, "+
+		"error satisfies a documented predicate (plain error for hash/random), documented-invalid length/range not reported as success.")
+	run.Assume("the C layer is instrumented by -asan (gcc); Go heap redzones make C over-reads of Go buffers visible; inputs are heap allocated",
+		"nil interface / nil callback arguments, UintN(0), linear-memory sizes above 2^16 and no-cgo builds are documented exceptions and are not passed",
+		"methods promoted from embedded standard-library types (hash.Hash, sha3.ShakeHash) that are not part of hash.Hasher are outside the three packages' declared API",
+		"DKG state de-duplication hashes every field of the real instance (dkgsys.InstHash)")
+	run.Finish()
+}
+
+func actionClasses(d *dkgUnit) []string {
+	seen := map[string]bool{}
+	var out []string
+	for _, a := range d.Actions {
+		c := a.Fn + "(" + a.Class + ")"
+		if i := strings.Index(c, "orig="); i >= 0 { // list message classes once
+			j := strings.Index(c, ",msg=")
+			c = a.Fn + "(orig=*," + c[j+1:]
+		}
+		if !seen[c] {
+			seen[c] = true
+			out = append(out, c)
+		}
+	}
+	return out
+}
+
 func main() {
-	seed := make([]byte, 32)
-	sk, _ := crypto.GeneratePrivateKey(crypto.BLSBLS12381, seed)
-	h := crypto.NewExpandMsgXOFKMAC128("x")
-	s0, _ := sk.Sign([]byte("m"), h)
-	one := make([]byte, 1)
-	one[0] = s0[0]
-	r, err := sk.PublicKey().Verify(one, []byte("m"), h)
-	fmt.Println(r, err)
+	if len(os.Args) > 1 && os.Args[1] == "--worker" {
+		workerMain(os.Args[2:])
+		return
+	}
+	if len(os.Args) > 1 && os.Args[1] == "--one" {
+		oneMain(os.Args[2:])
+		return
+	}
+	parentMain()
 }
